@@ -48,6 +48,8 @@ pub struct Utxo {
     pub value: u64,
     pub height: u32,
     pub hash: [u8; 32],
+    /// not reported in the start states: the explorer reports it with the `PutUtxo` operation
+    pub late: bool,
 }
 
 /// Which blocks make up the current chain: universe blocks F..=base_upto, then `dynb`.
@@ -88,6 +90,9 @@ pub struct Pending {
     pub expiry: u32,
     /// universe notes spent
     pub spends: Vec<usize>,
+    /// transparent coins spent (indices into `Env::utxos`)
+    pub utxo_spends: Vec<usize>,
+    /// real outputs (padding outputs that decrypt under no key of the universe are left out)
     pub outs: Vec<PendOut>,
     pub fee: u64,
 }
@@ -169,21 +174,34 @@ impl Env {
 
     /// Tell the wallet about every transparent coin mined at or below `tip`.
     fn put_utxos(&self, w: &mut Wallet, tip: u32) {
+        for i in 0..self.utxos.len() {
+            if self.utxos[i].height <= tip && !self.utxos[i].late {
+                self.put_utxo(w, i).expect("put_received_transparent_utxo");
+            }
+        }
+    }
+
+    /// `put_received_transparent_utxo` for coin `i` (the address-UTXO-query path: the coin is
+    /// reported as a member of the UTXO set, mined at its height).
+    pub fn put_utxo(&self, w: &mut Wallet, i: usize) -> Result<(), String> {
         use zcash_client_backend::wallet::WalletTransparentOutput;
         use zcash_transparent::bundle::{OutPoint, TxOut};
         use zcash_transparent::keys::TransparentKeyScope;
-        for t in self.utxos.iter().filter(|t| t.height <= tip) {
-            let (addr, acct) = if t.owner == Owner::A { (&self.taddr_a, w.acct_a) } else { (&self.taddr_b, w.acct_b) };
-            let out = WalletTransparentOutput::from_parts(
-                OutPoint::new(t.hash, 0),
-                TxOut::new(Zatoshis::from_u64(t.value).unwrap(), addr.script().into()),
-                Some(BlockHeight::from_u32(t.height)),
-                Some(acct),
-                Some(TransparentKeyScope::EXTERNAL),
-                None,
-            )
-            .expect("p2pkh output");
-            w.db.put_received_transparent_utxo(&out).expect("put_received_transparent_utxo");
+        let t = &self.utxos[i];
+        let (addr, acct) = if t.owner == Owner::A { (&self.taddr_a, w.acct_a) } else { (&self.taddr_b, w.acct_b) };
+        let out = WalletTransparentOutput::from_parts(
+            OutPoint::new(t.hash, 0),
+            TxOut::new(Zatoshis::from_u64(t.value).unwrap(), addr.script().into()),
+            Some(BlockHeight::from_u32(t.height)),
+            Some(acct),
+            Some(TransparentKeyScope::EXTERNAL),
+            None,
+        )
+        .expect("p2pkh output");
+        match mc_core::catch(|| w.db.put_received_transparent_utxo(&out)) {
+            Err(p) => Err(format!("panic in put_received_transparent_utxo({}): {p}", t.label)),
+            Ok(Err(e)) => Err(format!("put_received_transparent_utxo({}) failed: {e:?}", t.label)),
+            Ok(Ok(_)) => Ok(()),
         }
     }
 
@@ -342,12 +360,13 @@ impl Env {
             })
             .collect();
         let created = time::OffsetDateTime::from_unix_timestamp(1_740_441_600).unwrap();
+        let outpoints: Vec<Vec<zcash_transparent::bundle::OutPoint>> = ps.iter().map(|p| self.pend[*p].utxo_spends.iter().map(|i| zcash_transparent::bundle::OutPoint::new(self.utxos[*i].hash, 0)).collect()).collect();
         let sent: Vec<SentTransaction<_>> = ps
             .iter()
-            .zip(outputs.iter())
-            .map(|(p, outs)| {
+            .zip(outputs.iter().zip(outpoints.iter()))
+            .map(|(p, (outs, spent))| {
                 let pd = &self.pend[*p];
-                SentTransaction::new(&pd.tx, created, BlockHeight::from_u32(pd.build_target).into(), acct, outs, Zatoshis::from_u64(pd.fee).unwrap(), &[])
+                SentTransaction::new(&pd.tx, created, BlockHeight::from_u32(pd.build_target).into(), acct, outs, Zatoshis::from_u64(pd.fee).unwrap(), spent)
             })
             .collect();
         match mc_core::catch(|| w.db.store_transactions_to_be_sent(&sent)) {
@@ -370,9 +389,11 @@ impl Env {
         let taddr = |w: &Wallet, id| *w.db.get_last_generated_address_matching(id, UnifiedAddressRequest::AllAvailableKeys).expect("address lookup").expect("default address").transparent().expect("transparent receiver");
         let (taddr_a, taddr_b) = (taddr(&w, w.acct_a), taddr(&w, w.acct_b));
         let utxos = vec![
-            Utxo { label: "t80", owner: Owner::A, value: 80_000, height: uni::F + 3, hash: [0x80; 32] },
-            Utxo { label: "t7", owner: Owner::A, value: 7_000, height: uni::SHORT_TIP, hash: [0x07; 32] },
-            Utxo { label: "tb", owner: Owner::B, value: 50_000, height: uni::F + 3, hash: [0xb0; 32] },
+            Utxo { label: "t80", owner: Owner::A, value: 80_000, height: uni::F + 3, hash: [0x80; 32], late: false },
+            Utxo { label: "t7", owner: Owner::A, value: 7_000, height: uni::SHORT_TIP, hash: [0x07; 32], late: false },
+            Utxo { label: "tb", owner: Owner::B, value: 50_000, height: uni::F + 3, hash: [0xb0; 32], late: false },
+            // reported late (PutUtxo); pending transaction 2 spends it
+            Utxo { label: "t60", owner: Owner::A, value: 60_000, height: uni::F + 3, hash: [0x60; 32], late: true },
         ];
         let mut env = Env { u, pend: vec![], addr_sapling, addr_unified, addr_transparent, addr_tex, utxos, taddr_a, taddr_b, starts: vec![] };
         let base = ChainDesc { base_upto: uni::T0, dynb: vec![] };
@@ -407,6 +428,13 @@ impl Env {
         env.pend.push(p1);
         let (a, b) = (&env.pend[0].spends, &env.pend[1].spends);
         assert!(a.iter().all(|x| !b.contains(x)), "pending transactions spend disjoint note sets");
+        // Pending transaction 2: a shielding transaction built at target T0+1 that spends the late
+        // coin t60 only (the other coins of A are locked away on the scratch wallet) and returns
+        // the value to account A as a Sapling note.
+        db::restore(w.db.conn_mut(), &env.starts[0].1);
+        w.refresh_accounts();
+        let p2 = build_pending_shield(&env, &mut w, uni::T0 + 1)?;
+        env.pend.push(p2);
         let _ = net;
         Ok(env)
     }
@@ -416,7 +444,6 @@ impl Env {
 /// `expect_target`): propose a standard transfer of `amount` to the foreign Sapling address and
 /// create it with the repository's builder (Sapling mock provers: proofs are not in scope here).
 fn build_pending(env: &Env, w: &mut Wallet, expect_target: u32, amount: u64, locked: &[NoteKey]) -> Result<Pending, String> {
-    use sapling::note_encryption::{try_sapling_note_decryption, PreparedIncomingViewingKey, Zip212Enforcement};
     use sapling::prover::mock::{MockOutputProver, MockSpendProver};
     let u = &env.u;
     if !locked.is_empty() {
@@ -473,10 +500,67 @@ fn build_pending(env: &Env, w: &mut Wallet, expect_target: u32, amount: u64, loc
         None,
     )
     .map_err(|e| format!("setup: create_proposed_transactions failed on the wallet's own proposal: {e:?}"))?;
-    let txid = *txids.first();
+    extract_pending(env, w, *txids.first(), expect_target, fee, vec![])
+}
+
+/// Build the shielding transaction that spends the late coin.
+fn build_pending_shield(env: &Env, w: &mut Wallet, expect_target: u32) -> Result<Pending, String> {
+    use sapling::prover::mock::{MockOutputProver, MockSpendProver};
+    use zcash_client_backend::data_api::wallet::input_selection::GreedyInputSelector;
+    use zcash_client_backend::data_api::wallet::propose_shielding;
+    use zcash_client_backend::data_api::CoinbaseFilter;
+    use zcash_client_backend::fees::zip317::SingleOutputChangeStrategy;
+    use zcash_client_backend::fees::DustOutputPolicy;
+    let u = &env.u;
+    let late: Vec<usize> = (0..env.utxos.len()).filter(|i| env.utxos[*i].late).collect();
+    for i in &late {
+        env.put_utxo(w, *i)?;
+    }
+    let others: Vec<OutputRef> = (0..env.utxos.len()).filter(|i| !env.utxos[*i].late && env.utxos[*i].owner == Owner::A).map(|i| env.note_ref(NoteKey::T(i))).collect();
+    w.db.lock_outputs(&others, OWNER_Z, BlockHeight::from_u32(expect_target + 1000)).expect("scratch lock of the other coins");
+    let acct = w.acct_a;
+    type Db = zcash_client_sqlite::WalletDb<rusqlite::Connection, zcash_protocol::local_consensus::LocalNetwork, zcash_client_sqlite::util::testing::FixedClock, rand_chacha::ChaChaRng>;
+    let sel = GreedyInputSelector::<Db>::new();
+    let cs = SingleOutputChangeStrategy::<StandardFeeRule, Db>::new(StandardFeeRule::Zip317, None, ShieldedPool::Sapling, DustOutputPolicy::default());
+    let proposal = propose_shielding::<_, _, _, _, Infallible>(w.db.db_mut(), &u.network, &sel, &cs, Zatoshis::const_from_u64(10_000), &[env.taddr_a], acct, ConfirmationsPolicy::MIN, CoinbaseFilter::AllTransparentOutputs, None)
+        .map_err(|e| format!("setup: shielding the late coin from the fully scanned wallet (target height {expect_target}) is refused: {e:?}"))?;
+    let step = proposal.steps().first();
+    let fee = u64::from(step.balance().fee_required());
+    let mut spent = vec![];
+    for t in step.transparent_inputs() {
+        let i = env.utxos.iter().position(|x| x.hash == *t.outpoint().hash()).ok_or_else(|| format!("setup: shielding selected {:?}, not a coin of the ground truth", t.outpoint()))?;
+        if !env.utxos[i].late {
+            return Err(format!("setup: shielding selected coin {}, which is locked by another owner (or belongs to another account)", env.utxos[i].label));
+        }
+        spent.push(i);
+    }
+    if spent != late {
+        return Err(format!("setup: shielding selected coins {spent:?}, expected the late coins {late:?}"));
+    }
+    let txids = create_proposed_transactions::<_, _, Infallible, _, Infallible, Infallible>(
+        w.db.db_mut(),
+        &u.network,
+        &MockSpendProver,
+        &MockOutputProver,
+        &SpendingKeys::from_unified_spending_key(u.keys.usk_a.clone()),
+        OvkPolicy::Sender,
+        &proposal,
+        None,
+    )
+    .map_err(|e| format!("setup: create_proposed_transactions failed on the wallet's own shielding proposal: {e:?}"))?;
+    extract_pending(env, w, *txids.first(), expect_target, fee, spent)
+}
+
+/// Read the created transaction back and establish its ground truth by trial decryption.
+fn extract_pending(env: &Env, w: &mut Wallet, txid: TxId, expect_target: u32, fee: u64, utxo_spends: Vec<usize>) -> Result<Pending, String> {
+    use sapling::note_encryption::{try_sapling_note_decryption, PreparedIncomingViewingKey, Zip212Enforcement};
+    let u = &env.u;
     let tx = w.db.get_transaction(txid).expect("get_transaction").expect("created transaction is stored");
     let bundle = tx.sapling_bundle().expect("pending transactions are Sapling transactions");
-    assert!(tx.orchard_bundle().is_none() && tx.ironwood_bundle().is_none() && tx.transparent_bundle().is_none(), "pending transaction is Sapling-only");
+    assert!(tx.orchard_bundle().is_none() && tx.ironwood_bundle().is_none(), "pending transaction has no Orchard/Ironwood bundle");
+    let n_vin = tx.transparent_bundle().map(|b| b.vin.len()).unwrap_or(0);
+    assert_eq!(n_vin, utxo_spends.len(), "transparent inputs of the pending transaction");
+    assert!(tx.transparent_bundle().map(|b| b.vout.is_empty()).unwrap_or(true), "pending transaction has no transparent output");
     let mut ctx = CompactTx { index: 1, txid: txid.as_ref().to_vec(), ..Default::default() };
     let mut spends = vec![];
     for s in bundle.shielded_spends() {
@@ -501,10 +585,13 @@ fn build_pending(env: &Env, w: &mut Wallet, expect_target: u32, amount: u64, loc
                 break;
             }
         }
-        outs.push(found.expect("every output of the pending tx decrypts under a universe key"));
+        // an output that decrypts under no key of the universe is builder padding (value 0)
+        if let Some(f) = found {
+            outs.push(f);
+        }
     }
-    let in_total: u64 = spends.iter().map(|i| u.notes[*i].value).sum();
+    let in_total: u64 = spends.iter().map(|i| u.notes[*i].value).sum::<u64>() + utxo_spends.iter().map(|i| env.utxos[*i].value).sum::<u64>();
     let out_total: u64 = outs.iter().map(|o| o.value).sum();
     assert_eq!(in_total, out_total + fee, "pending transaction balances");
-    Ok(Pending { txid: txid.as_ref().clone(), ctx, build_target: expect_target, expiry: u32::from(tx.expiry_height()), spends, outs, fee, tx })
+    Ok(Pending { txid: txid.as_ref().clone(), ctx, build_target: expect_target, expiry: u32::from(tx.expiry_height()), spends, utxo_spends, outs, fee, tx })
 }
